@@ -13,6 +13,7 @@ import (
 	"strings"
 	"sync"
 
+	inject "github.com/openebs/jiva/error-inject"
 	"github.com/openebs/jiva/replica"
 	"github.com/openebs/jiva/types"
 	"github.com/openebs/jiva/util"
@@ -425,6 +426,39 @@ func (x *inst) apply(ev string) {
 		if err != nil {
 			x.violate("reload-failed", "reloadulm-failed", err.Error())
 		}
+	case "ULMW":
+		// rebuild epilogue with a foreground write landing in UpdateLUNMap's unlocked window (after the extents were
+		// scanned, before the merge re-takes the server lock)
+		off, n := atoi(f[1]), atoi(f[2])
+		buf := make([]byte, n*Sector)
+		tag := m.NW + 1
+		Fill(buf, tag, int64(off)*Sector)
+		var werr error
+		fired := false
+		inject.UpdateLUNMapHook = func() {
+			fired = true
+			_, werr = x.srv.WriteAt(buf, int64(off)*Sector)
+		}
+		err := x.guard(ev, func() error {
+			x.srv.SetPreload(false)
+			e := x.srv.Reload()
+			x.srv.SetPreload(true)
+			if e != nil {
+				return e
+			}
+			return x.srv.UpdateLUNMap()
+		})
+		inject.UpdateLUNMapHook = nil
+		x.observe("%s -> %v write=%v fired=%v", ev, err != nil, werr != nil, fired)
+		if err != nil || werr != nil || !fired {
+			x.violate("reload-failed", "ulmw-failed", fmt.Sprintf("%v / write in the window: %v (fired=%v)", err, werr, fired))
+			return
+		}
+		m.Write(off, n)
+		if m.Mode == "RW" {
+			m.Rev++
+		}
+		m.Dirty = true
 	case "Grow":
 		nb := len(m.Live)/SPB + atoi(f[1])
 		err := x.guard(ev, func() error { return x.srv.Resize(strconv.Itoa(nb * Block)) })
